@@ -255,35 +255,12 @@ func runC10(c *Ctx) {
 
 	// (c) collector join in LocalNode.ListKeys
 	lk := chordFn(c, "LocalNode", "ListKeys")
-	var closeCall, gWait, rdWait *ast.CallExpr
-	var sendErr *ast.SendStmt
-	var closerFn *Fn
-	for _, lit := range lk.Lits() {
-		g := lk.Closure(lit)
-		for _, call := range g.Calls(false, func(call *ast.CallExpr) bool {
-			id, ok := call.Fun.(*ast.Ident)
-			return ok && id.Name == "close"
-		}) {
-			closeCall, closerFn = call, g
-		}
-	}
-	if closerFn == nil {
-		c.Failf("ListKeys: goroutine closing the result channel not found (undecided)")
-	}
-	for _, call := range methodCalls(closerFn, false, "Wait") {
-		pv := closerFn.Prov(call.Fun.(*ast.SelectorExpr).X)
-		if strings.Contains(pv, "errgroup.WithContext()#0") {
-			gWait = call
-		} else {
-			rdWait = call
-		}
-	}
-	ast.Inspect(closerFn.Body, func(n ast.Node) bool {
-		if s, ok := n.(*ast.SendStmt); ok {
-			sendErr = s
-		}
-		return true
-	})
+	// Roles: the *collector* is the goroutine literal that ranges over a channel and appends
+	// to the result; that channel is the *result channel*. The collector announces that it is
+	// done by a deferred WaitGroup.Done or a deferred close of a *done channel*; whoever
+	// closes the result channel (the function itself or a helper goroutine) must do so after
+	// the errgroup Wait, then wait for the collector (WaitGroup.Wait / receive from the done
+	// channel); the keys are returned only after that, and only when the listings succeeded.
 	after := func(g *Fn, first ast.Node, second ast.Node) bool {
 		if first == nil || second == nil {
 			return false
@@ -297,35 +274,124 @@ func runC10(c *Ctx) {
 		}
 		return true
 	}
-	var nGW, nCC, nRW ast.Node
+	var collector *Fn
+	var resultCh *types.Var
+	for _, lit := range lk.Lits() {
+		g := lk.Closure(lit)
+		for _, nd := range shallowNodes(lit.Body) {
+			if rs, ok := nd.(*ast.RangeStmt); ok {
+				if v := g.varOf(rs.X); v != nil {
+					if _, isChan := v.Type().Underlying().(*types.Chan); isChan {
+						collector, resultCh = g, v
+					}
+				}
+			}
+		}
+	}
+	if collector == nil {
+		c.Failf("ListKeys: collector goroutine (a literal ranging over the result channel) not found (undecided)")
+	}
+	// how the collector says it is done
+	var doneWG, doneCh *types.Var
+	for _, nd := range shallowNodes(collector.Body) {
+		d, ok := nd.(*ast.DeferStmt)
+		if !ok {
+			continue
+		}
+		if se, ok := d.Call.Fun.(*ast.SelectorExpr); ok && se.Sel.Name == "Done" {
+			doneWG = collector.varOf(se.X)
+		}
+		if id, ok := d.Call.Fun.(*ast.Ident); ok && id.Name == "close" && len(d.Call.Args) == 1 {
+			doneCh = collector.varOf(d.Call.Args[0])
+		}
+	}
+	// who closes the result channel
+	var closeCall *ast.CallExpr
+	var closerFn *Fn
+	for _, g := range append([]*Fn{lk}, func() []*Fn {
+		var out []*Fn
+		for _, lit := range lk.Lits() {
+			out = append(out, lk.Closure(lit))
+		}
+		return out
+	}()...) {
+		for _, call := range g.Calls(false, func(call *ast.CallExpr) bool {
+			id, ok := call.Fun.(*ast.Ident)
+			return ok && id.Name == "close" && len(call.Args) == 1 && g.enclosing(call) == g && g.varOf(call.Args[0]) == resultCh
+		}) {
+			closeCall, closerFn = call, g
+		}
+	}
+	if closerFn == nil {
+		c.Failf("ListKeys: the close of the result channel not found (undecided)")
+	}
+	var gWait *ast.CallExpr
+	var join ast.Node // waiting for the collector, in the closer
+	for _, call := range methodCalls(closerFn, false, "Wait") {
+		if closerFn.enclosing(call) != closerFn {
+			continue
+		}
+		pv := closerFn.Prov(call.Fun.(*ast.SelectorExpr).X)
+		if strings.Contains(pv, "errgroup.WithContext()#0") {
+			gWait = call
+		} else if doneWG != nil && closerFn.varOf(call.Fun.(*ast.SelectorExpr).X) == doneWG {
+			join = call
+		}
+	}
+	if doneCh != nil {
+		for _, nd := range shallowNodes(closerFn.Body) {
+			if u, ok := nd.(*ast.UnaryExpr); ok && u.Op == token.ARROW && closerFn.varOf(u.X) == doneCh {
+				join = u
+			}
+		}
+	}
+	var nGW, nCC ast.Node
 	if gWait != nil {
 		nGW = gWait
 	}
 	if closeCall != nil {
 		nCC = closeCall
 	}
-	if rdWait != nil {
-		nRW = rdWait
-	}
 	c.Ob("collector", "ListKeys#close-after-all-listings", closerFn.Body.Pos(), after(closerFn, nGW, nCC), "the result channel is closed only after every per-node listing finished (errgroup Wait)")
-	c.Ob("collector", "ListKeys#reader-joined-before-signal", closerFn.Body.Pos(), sendErr != nil && after(closerFn, nCC, nRW) && after(closerFn, nRW, sendErr), "the collector goroutine is waited for (after the channel was closed) before the completion signal is sent")
-	// keys returned only after receiving the signal
+	// the completion signal towards the function's own return: the closer IS the function
+	// (then the join itself), or a goroutine that sends the outcome on a channel after the join
+	var sendErr *ast.SendStmt
+	if closerFn != lk {
+		for _, nd := range shallowNodes(closerFn.Body) {
+			if snd, ok := nd.(*ast.SendStmt); ok {
+				sendErr = snd
+			}
+		}
+	}
+	okJoin := join != nil && after(closerFn, nCC, join)
+	if closerFn != lk {
+		okJoin = okJoin && sendErr != nil && after(closerFn, join, sendErr)
+	}
+	c.Ob("collector", "ListKeys#reader-joined-before-signal", closerFn.Body.Pos(), okJoin, "the collector goroutine is waited for (after the channel was closed) before the completion signal is sent")
+	// keys returned only after the signal, and only when the listings succeeded
 	for _, r := range successReturns(lk) {
 		if lk.enclosing(r) != lk || len(r.Results) != 2 || !strings.Contains(lk.Prov(r.Results[0]), "builtin:make") {
 			continue
 		}
-		okRecv := lk.FactsAt(r).Cmp(func(e, tag ast.Expr, truth bool, fa *Fact) bool {
-			be, ok := e.(*ast.BinaryExpr)
-			return ok && !truth && be.Op == token.NEQ && isNilIdent(lk.Info, be.Y)
+		okErr := lk.FactsAt(r).Cmp(func(e, tag ast.Expr, truth bool, fa *Fact) bool {
+			be, ok := ast.Unparen(e).(*ast.BinaryExpr)
+			if !ok || tag != nil || !isNilIdent(lk.Info, be.Y) {
+				return false
+			}
+			return be.Op == token.NEQ && !truth || be.Op == token.EQL && truth
 		})
 		recvd := false
-		ast.Inspect(lk.Body, func(n ast.Node) bool {
-			if u, ok := n.(*ast.UnaryExpr); ok && u.Op == token.ARROW && sendErr != nil && types_ExprString(u.X) == types_ExprString(sendErr.Chan) {
-				recvd = after(lk, u, r)
-			}
-			return true
-		})
-		c.Ob("collector", "ListKeys#keys-read-after-signal", r.Pos(), okRecv && recvd, "the collected keys are returned only after the completion signal was received and carried no error")
+		if closerFn == lk {
+			recvd = join != nil && after(lk, join, r)
+		} else {
+			ast.Inspect(lk.Body, func(n ast.Node) bool {
+				if u, ok := n.(*ast.UnaryExpr); ok && u.Op == token.ARROW && sendErr != nil && types_ExprString(u.X) == types_ExprString(sendErr.Chan) {
+					recvd = after(lk, u, r)
+				}
+				return true
+			})
+		}
+		c.Ob("collector", "ListKeys#keys-read-after-signal", r.Pos(), okErr && recvd, "the collected keys are returned only after the completion signal was received and carried no error")
 	}
 	// the collector appends what it receives
 	okCollect := false
@@ -390,10 +456,19 @@ func runC10(c *Ctx) {
 			c.Ob("ring-walk", "ListKeys#self-listed-when-walk-closes", call.Pos(), backAtSelf, "the receiver is added when the walk is back at it")
 		} else {
 			nother++
-			notSeen := fs.Cmp(func(e, tag ast.Expr, truth bool, fa *Fact) bool {
-				_, ok := e.(*ast.IndexExpr)
-				return ok && !truth
-			})
+			// the node's id is known absent from a map (the visited set) indexed by an id
+			notSeen := false
+			for _, nd := range shallowNodes(loop.Body) {
+				ix, ok := nd.(*ast.IndexExpr)
+				if !ok {
+					continue
+				}
+				if m := lk.varOf(ix.X); m != nil {
+					if _, isMap := m.Type().Underlying().(*types.Map); isMap && lk.notInSeen(fs, m, lk.Prov(ix.Index)) {
+						notSeen = true
+					}
+				}
+			}
 			c.Ob("ring-walk", "ListKeys#each-node-once", call.Pos(), notSeen, "another node is added only if it was not visited before")
 		}
 	}
